@@ -264,8 +264,11 @@ def gen_cases(seed, n_cases):
             r["subtomo_id"] = float(i)
         version = [3.0, 3.1, 4.0][ci % 3]
         kind = ["export", "import", "roundtrip"][(ci // 3) % 3]
-        fmt = int(rng.integers(0, 3))
-        tf, sf = [("", ""), ("tomo_$xxx.mrc", "sub/$xxx/part_$xxx_$yyyyyy.mrc"), ("TS_$xx.mrc", "TS_$xx/TS_$xx_sub_$yyyy.mrc")][fmt] if version < 4.0 else [("", ""), ("TS_$xxx", "TS_$xxx/$yyy"), ("t$xxxx", "t$xxxx/$yyyyy")][fmt]
+        fmt = int(rng.integers(0, 4))
+        # the fourth form has digits in the directory part: the number is documented to come from the last path entry
+        tf, sf = ([("", ""), ("tomo_$xxx.mrc", "sub/$xxx/part_$xxx_$yyyyyy.mrc"), ("TS_$xx.mrc", "TS_$xx/TS_$xx_sub_$yyyy.mrc"),
+                   ("/data/run2/bin4/tomo_$xxx.mrc", "/data/run2/bin4/sub7/part_$xxx_$yyyyyy.mrc")][fmt] if version < 4.0 else
+                  [("", ""), ("TS_$xxx", "TS_$xxx/$yyy"), ("t$xxxx", "t$xxxx/$yyyyy"), ("set2/bin4/TS_$xxx", "TS_$xxx/$yyy")][fmt])
         case = {"rows": rows, "version": version, "kind": kind, "pixel": float(rng.choice([1.0, 2.5, rng.uniform(0.5, 8)])),
                 "binning": float(rng.choice([1.0, 2.0, 4.0])), "tf": tf, "sf": sf, "via_file": bool(rng.random() < 0.5), "optics": bool(rng.random() < 0.5),
                 "names": bool(rng.random() < 0.6), "seed": int(rng.integers(1 << 30)), "variant": int(rng.integers(0, 5)), "per_tomo_numbers": bool(rng.random() < 0.3)}
